@@ -421,8 +421,18 @@ func H_API_PolyPolyHole(p []int) {
 			touch = true
 		}
 	}
+	wantIn := sRingEdgesIn(a, b) && !entersHole && !holeInB
 	if !touch { // the open-interior test against holes has a known finding when B touches the hole boundary
-		vAssert(A.ContainsPoly(B) == (sRingEdgesIn(a, b) && !entersHole && !holeInB), "C03.api-holed-poly-contains-poly")
+		vAssert(A.ContainsPoly(B) == wantIn, "C03.api-holed-poly-contains-poly")
+	}
+	if n == 4 && b0[0].X == b0[3].X && b0[0].Y == b0[1].Y && b0[1].X == b0[2].X && b0[2].Y == b0[3].Y && b0[0].X < b0[1].X && b0[0].Y < b0[3].Y {
+		// B is an axis-aligned rectangle: the Rect entry points must answer the same
+		r := Rect{Min: b[0], Max: b[2]}
+		vAssert(A.IntersectsRect(r) == meet, "C02.api-holed-poly-intersects-rect")
+		vAssert(r.IntersectsPoly(A) == meet, "C02.api-rect-intersects-holed-poly")
+		if !touch {
+			vAssert(A.ContainsRect(r) == wantIn, "C03.api-holed-poly-contains-rect")
+		}
 	}
 	vCover("api.polypolyhole")
 }
